@@ -326,7 +326,8 @@ def gen_midi(rng, cid):
             # wall-clock advance seen by the callback since the previous clock message, in units of 2^-16 s:
             # regular, jittery, none at all (coarse system timer / a burst of queued messages), stepping back
             t = rng.random()
-            dt = rng.choice([1365, 1024, 683]) if t < 0.6 else rng.randint(1, 4000) if t < 0.8 else 0 if t < 0.97 else -rng.randint(1, 2000)
+            # ... or a long silent gap (the master was paused and resumed: 1 .. 6 s)
+            dt = rng.choice([1365, 1024, 683]) if t < 0.6 else rng.randint(1, 4000) if t < 0.76 else rng.choice([66000, 70000, 100000, 400000]) if t < 0.8 else 0 if t < 0.97 else -rng.randint(1, 2000)
             lines.append("msg clock %d" % dt)
         else:
             k = rng.random()
